@@ -76,14 +76,17 @@ func (c *c04GateClient) AddPathInitialDump(p *bnet.Prefix, pa *route.Path) error
 	c.set(p, pa, true)
 	return nil
 }
-func (c *c04GateClient) RemovePath(p *bnet.Prefix, pa *route.Path) bool { c.set(p, pa, false); return true }
+func (c *c04GateClient) RemovePath(p *bnet.Prefix, pa *route.Path) bool {
+	c.set(p, pa, false)
+	return true
+}
 func (c *c04GateClient) ReplacePath(p *bnet.Prefix, old, new *route.Path) {
 	c.set(p, old, false)
 	c.set(p, new, true)
 }
 func (c *c04GateClient) RefreshRoute(*bnet.Prefix, []*route.Path) {}
-func (c *c04GateClient) EndOfRIB()                                  {}
-func (c *c04GateClient) Dispose()                                   {}
+func (c *c04GateClient) EndOfRIB()                                {}
+func (c *c04GateClient) Dispose()                                 {}
 
 func TestVerifC04RegisterDuringChange(t *testing.T) {
 	rec := kit.NewRecorder(t, "C04", c04DuringRule)
